@@ -25,8 +25,8 @@ theorem find_filter_ne (l : List (Nat × Entry)) (k k' : Nat) (h : k' ≠ k) :
   | nil => rfl
   | cons x t ih =>
     by_cases hx : x.1 = k
-    · simp [List.filter_cons, List.find?_cons, hx, hk, ih]
-    · simp [List.filter_cons, List.find?_cons, hx, ih]
+    · simp [hx, hk, ih]
+    · simp [List.find?_cons, hx, ih]
 
 theorem kvGet_kvPut (s : St) (k k' : Nat) (r : Entry) : kvGet (kvPut s k r) k' = if k' = k then some r else kvGet s k' := by
   unfold kvGet kvPut
